@@ -58,7 +58,7 @@ func main() {
 		return nil
 	})
 
-	if err := stripTags(*repo, *verif); err != nil {
+	if err := stripTags(*repo, *verif, *out, &plain, &full); err != nil {
 		fmt.Fprintln(os.Stderr, "instrument: tag stripping:", err)
 		os.Exit(1)
 	}
